@@ -26,6 +26,13 @@ var verifRoot = func() string {
 	return "/verif"
 }()
 
+// racePass: the binary was built with -race and runs only the phases whose
+// name starts with "concurrent" (a second pass of ./check for the properties
+// that have such phases). It is judged like a Race property (zero detector
+// reports, no fatal error), skips the observation floor, and leaves a summary
+// in <work>/race-pass.json which the main pass copies into the evidence.
+var racePass = os.Getenv("VERIF_RACE_PASS") != ""
+
 // outRoot is where evidence/ and replays/ are written. A self-test run against
 // a scratch copy of the repository (VERIF_REPO set: seeded changes, reverted
 // fixes) must never overwrite the evidence of the real tree; its files go
@@ -101,6 +108,9 @@ func childMain(args []string) {
 	if p == nil {
 		fmt.Fprintln(os.Stderr, "unknown property", *prop)
 		os.Exit(2)
+	}
+	if racePass {
+		p.Race = true
 	}
 	if !p.Race && os.Getenv("VERIF_NO_RLIMIT") == "" {
 		// contain a runaway allocation inside this child (not under -race: the
@@ -466,6 +476,9 @@ func driveMain(args []string) int {
 			seed = uint64(n)
 		}
 	}
+	if racePass {
+		p.Race = true
+	}
 	self, _ := os.Executable()
 	d := &driver{p: p, tier: *tier, seed: seed, self: self, work: *work, start: time.Now()}
 	d.agg = &Agg{Cov: map[string]int64{}, Maxes: map[string]float64{}, Info: map[string]any{}, Viol: map[string]*Violation{}, Distinct: map[uint64]struct{}{}}
@@ -564,9 +577,37 @@ func (d *driver) conclude(nshards int) int {
 		}
 		a.Incon = u
 	}
+	if racePass {
+		sum := map[string]any{"built_with": "-race", "phases": "concurrent*", "evaluations": a.Evals, "race_reports_and_violations": len(newV), "inconclusive": a.Incon, "wall_s": time.Since(d.start).Seconds()}
+		cnt := map[string]int64{}
+		for k, v := range a.Cov {
+			if strings.HasPrefix(k, "concurrent") {
+				cnt[k] = v
+			}
+		}
+		sum["counters"] = cnt
+		b, _ := json.MarshalIndent(sum, "", " ")
+		os.WriteFile(filepath.Join(d.work, "race-pass.json"), b, 0o644)
+		if len(newV) > 0 {
+			return 1
+		}
+		if len(a.Incon) > 0 {
+			for _, r := range a.Incon {
+				fmt.Printf("INCONCLUSIVE property=%s reason=race pass: %s\n", p.ID, strings.ReplaceAll(r, "\n", " | "))
+			}
+			return 2
+		}
+		return 0
+	}
 	if p.Floor != nil && len(a.Incon) == 0 {
 		if r := p.Floor(a); r != "" {
 			a.Incon = append(a.Incon, "observation floor: "+r)
+		}
+	}
+	if b, err := os.ReadFile(filepath.Join(d.work, "race", "race-pass.json")); err == nil {
+		var rp any
+		if json.Unmarshal(b, &rp) == nil {
+			a.Info["race_detector_pass_over_concurrent_phases"] = rp
 		}
 	}
 	d.writeEvidence(nshards, len(newV), knownV)
